@@ -296,8 +296,12 @@ def random_history(rng, length=40):
             h.append(cc(ch, rng.choice([7, 10, 11, 74, 91]), rng.randrange(128)))
         elif r < 0.98 and not vib and rng.random() < 0.3:
             vib = True; h.append(cc(ch, 1, rng.choice([1, 64, 127])))
-        elif r < 0.99:
+        elif r < 0.985:
             h.append(bend(ch, 8192))
+        elif r < 0.993:
+            # every note is cut, the channels keep wheel / range / program: what is played afterwards is pitched as before
+            h.append(rng.choice([{"o": "panic"}, {"o": "panic"}, {"o": "emu", "v": rng.choice([0, 2, 3])}, {"o": "chips", "n": rng.choice([3, 4])}]))
+            held = {c: [] for c in chans}; ons = 0
         else:
             # reset all controllers: the bend range falls back to 2 semitones, the wheel is centred
             h += [cc(ch, 121, 0), bend(ch, rng.choice([0, 16383, rng.randrange(16384)]))]
@@ -342,6 +346,21 @@ def seq_history(rng, length=40):
         else:
             h += [cc(ch, 121, 0), bend(ch, rng.choice([0, 16383, rng.randrange(16384)]))]
     return h
+
+
+def cut_histories(fams=(0, 1)):
+    """opn2_panic / emulator switch / chip count in the middle of a stream: notes end, wheel and bend range stay in force for
+    the notes that follow (nothing re-sends them), on melodic and percussion channels"""
+    out = []
+    for fam in fams:
+        for ch in (0, 9):
+            key = 40 if ch == 9 else 60
+            for cut in ({"o": "panic"}, {"o": "emu", "v": 2}, {"o": "chips", "n": 2}):
+                for (msb, lsb) in [(12, 0), (7, 64)]:
+                    h = [init(fam, 2)] + rpn_range(ch, msb, lsb) + [bend(ch, 16383), on(ch, key), dict(cut), on(ch, key), bend(ch, 0),
+                         off(ch, key), on(ch, key + 1), dict(cut), bend(ch, 12000), on(ch, key), off(ch, key)]
+                    out.append(h)
+    return out
 
 
 def reset_histories(fams=(0, 1)):
